@@ -7,6 +7,13 @@ props = [json.loads(l) for l in open(os.path.join(here, 'properties.jsonl'))]
 # id -> (technique, level text, level note, design ref)
 claimed = {
 
+ 'C10': ('peer-taint analysis over the class-hierarchy call graph + guard obligations (explicit panics, partial lookups, allocations, compiler-unproven bounds, stdlib preconditions, type assertions) + must-pass dataflow',
+         'Structural necessary conditions over all code reachable from the wire entry points: no explicit panic, unbounded allocation, unguarded index/slice (among those the Go compiler could not prove), unguarded stdlib precondition or unchecked type assertion is reachable with a peer-controlled operand without a dominating guard; responders convert failures to error messages; content-length guards dominate body processing. Nil dereferences, hangs, CPU and memory below the bounds are not decided.',
+         'Trusts go/types+go/ssa, the Go compiler\'s prove pass (bounds-check elimination) as discharge oracle, the taint source/sink tables and three reviewed tables (panics, bounds, preconditions: one reason per entry) in /verif/checker/e3.go; values from the state store, callbacks and registries are assumed not attacker-controlled.', 'DESIGN.md §2 C10'),
+ 'C12': ('peer-taint guard obligations restricted to package cbor + must-pass (trailing data) + byte-string bounding table',
+         'Structural necessary conditions for the decoder with every input byte attacker-controlled: allocations sized from a wire head are dominated by an upper bound (and are non-negative), Unmarshal succeeds only without trailing bytes, byte-string wrappers decode from a reader limited to the announced length, explicit panics and compiler-unproven bounds are discharged; allocations proportional to claimed (not received) length are enumerated and carried as known findings. Termination, exact consumption and reflect-internal panics are not decided.',
+         'Trusts go/types+go/ssa, the compiler\'s prove pass, the reviewed tables in /verif/checker/e3.go.', 'DESIGN.md §2 C12'),
+
  'C03': ('interprocedural must-pass dataflow + composite-literal field-source tables over go/ssa',
          'Structural necessary conditions for agreement of credential and stored voucher: atomic placement of AddVoucher/ReplaceVoucher behind their session prerequisites and nonce checks; credentials returned only after the final message; the replacement header built by the device and the one stored by the owner assign all fields from the prescribed sources; SetupDevice carries the very values stored in the session; the HMACed header is the one that fills the credential; the DI header stored is the one sent. Equality of the encoded bytes, blob round trips, multi-round histories and crash points are not decided (value-/execution-level).',
          'Trusts go/types+go/ssa and the rule tables; field-source classes are provenance over-approximations.', 'DESIGN.md §2 C03'),
